@@ -322,9 +322,14 @@ def sweeps(tier, rng):
                         pts.append(((rng.randint(-400, 400), rng.randint(-400, 400)), "curve"))
                     else:
                         pts.append(((rng.randint(-400, 400), rng.randint(-400, 400)), "line"))
-                # start on an on-curve point (glyf cubic contours need one to anchor the off-curve pairs), any of them
-                ons = [j for j, (_, t_) in enumerate(pts) if t_ is not None]
-                r_ = rng.choice(ons); pts = pts[r_:] + pts[:r_]
+                if rng.chance(35):
+                    # a quadratic contour in the same glyph (glyf format 1 allows both kinds side by side), possibly ending on an off-curve point
+                    pts = []
+                    for _s in range(rng.randint(2, 4)):
+                        if rng.chance(70): pts += [((rng.randint(-400, 400), rng.randint(-400, 400)), None)] * 1 + [((rng.randint(-400, 400), rng.randint(-400, 400)), "qcurve")]
+                        else: pts.append(((rng.randint(-400, 400), rng.randint(-400, 400)), "line"))
+                # start anywhere: on an on-curve point, or on the off-curve points of the segment that closes the contour
+                r_ = rng.below(len(pts)); pts = pts[r_:] + pts[:r_]
                 conts.append(pts)
             bad = None
             try:
